@@ -7,6 +7,7 @@ model by hermetic replay and adversarial schedules."""
 import hashlib, json, os, re, shutil, subprocess, sys
 from common import *
 import ninja_py
+import c05_gen
 
 GEN_PY = '''#!/usr/bin/env python3
 import sys, os
@@ -19,6 +20,11 @@ if '--depfile' in rest:
     k = rest.index('--depfile')
     depfile = rest[k + 1]
     rest = rest[:k] + rest[k + 2:]
+also = None
+if '--also' in rest:
+    k = rest.index('--also')
+    also = rest[k + 1]
+    rest = rest[:k] + rest[k + 2:]
 ins = rest
 base = os.path.basename(out)
 name = ''.join(ch if ch.isalnum() else '_' for ch in base.split('.')[0])
@@ -27,7 +33,7 @@ for i in ins:
     if not os.path.exists(i):
         sys.stderr.write('gen.py: missing input %s\\n' % i)
         sys.exit(1)
-    body += open(i).read()
+    body += open(i, 'rb').read().decode('latin-1')
 if out.endswith(('.h', '.inc', '.def', '.tbl')):
     open(out, 'w').write('#ifndef H_%s\\n#define H_%s\\n#define VAL_%s %d\\n#endif\\n' % (name, name, name, len(body) % 97))
 elif out.endswith('.dat'):
@@ -37,14 +43,31 @@ else:
     open(out, 'w').write(inc + 'int f_%s(void) { return %d; }\\n' % (name, len(body) % 89))
 if depfile:
     open(depfile, 'w').write('%s: %s\\n' % (out, ' '.join(ins)))
+if also:
+    open(also, 'w').write('#define ALSO_%s %d\\n' % (name, len(body) % 7))
 '''
 
 
 def gen_project(rng, idx):
     """A random project mixing generated headers, generators, custom-target chains, link_with /
     link_whole, declare_dependency(sources:), depends:/depend_files:, configure_file, subdirs and a
-    built tool used as a generator.  Returns {relative path: content}."""
+    built tool used as a generator.  Returns ({relative path: content}, spec) where spec is the
+    same project as a list of declarations (the IR of coq/Graph/Gen.v before path resolution):
+      ('custom', var, {subdir, outs:[name], inputs, command, depends, depend_files})
+      ('build',  var, {subdir, kind, name, srcs:[bsrc], lw:[var], lwh:[var], deps:[dep]})
+    with cinput/carg = ('file', rel) | ('target', var) | ('prog',) | ('str',),
+    bsrc = ('file', rel) | ('custom', var) | ('gen', {exe, depends:[var], outfmt, items:[rel]}),
+    dep = {srcs, lw, lwh, sub}."""
     files = {'gen.py': GEN_PY}
+    spec = []
+    PROG, STR = ('prog',), ('str',)
+
+    def custom(var, outs, inputs=(), command=(), depends=(), depend_files=()):
+        spec.append(('custom', var, {'subdir': '', 'outs': list(outs), 'inputs': list(inputs), 'command': list(command),
+                                     'depends': list(depends), 'depend_files': list(depend_files)}))
+
+    def dep_of(var):
+        return {'srcs': [('custom', var)], 'lw': [], 'lwh': [], 'sub': []}
     mb = ["project('p%d', 'c')" % idx, "gen = find_program('gen.py')"]
     hdrs, libs, objs_with = [], [], []
     nh = rng.randint(1, 3)
@@ -53,16 +76,20 @@ def gen_project(rng, idx):
         extra = ''
         if h and rng.random() < 0.5:
             extra = ", input : hdr%d, depends : hdr%d" % (h - 1, h - 1) if rng.random() < 0.5 else ", depends : hdr%d" % (h - 1)
+        hdeps = [('target', 'hdr%d' % (h - 1))] if 'depends' in extra else []
         if 'input' in extra:
             mb.append("hdr%d = custom_target('hdr%d', output : 'gen%d%s'%s, command : [gen, '@OUTPUT@', '@INPUT@'])" % (h, h, h, suf[h], extra))
+            custom('hdr%d' % h, ['gen%d%s' % (h, suf[h])], [('target', 'hdr%d' % (h - 1))], [PROG, STR, STR], hdeps)
         else:
             dep_files = ''
             if rng.random() < 0.3:
                 files['data%d.txt' % h] = 'data %d\n' % rng.randint(0, 99)
                 dep_files = ", depend_files : 'data%d.txt'" % h
                 mb.append("hdr%d = custom_target('hdr%d', output : 'gen%d%s'%s%s, command : [gen, '@OUTPUT@', '@CURRENT_SOURCE_DIR@/data%d.txt'])" % (h, h, h, suf[h], extra, dep_files, h))
+                custom('hdr%d' % h, ['gen%d%s' % (h, suf[h])], [], [PROG, STR, STR], hdeps, ['data%d.txt' % h])
             else:
                 mb.append("hdr%d = custom_target('hdr%d', output : 'gen%d%s'%s, command : [gen, '@OUTPUT@'])" % (h, h, h, suf[h], extra))
+                custom('hdr%d' % h, ['gen%d%s' % (h, suf[h])], [], [PROG, STR], hdeps)
         hdrs.append(h)
     if rng.random() < 0.5:
         files['config.h.in'] = '#define CONF @CONF@\n'
@@ -80,21 +107,35 @@ def gen_project(rng, idx):
         if how == 'depends':
             mb.append("gsrc%d = custom_target('gsrc%d', input : 'tmpl%d.in', output : 'gsrc%d.c', depends : hdr%d, command : [gen, '@OUTPUT@', '@INPUT@'])" % (c, c, c, c, h))
             files_inc = None
+            custom('gsrc%d' % c, ['gsrc%d.c' % c], [('file', 'tmpl%d.in' % c)], [PROG, STR, STR], [('target', 'hdr%d' % h)])
         else:
             mb.append("gsrc%d = custom_target('gsrc%d', input : ['tmpl%d.in', hdr%d], output : 'gsrc%d.c', command : [gen, '@OUTPUT@', '@INPUT@'])" % (c, c, c, h, c))
+            custom('gsrc%d' % c, ['gsrc%d.c' % c], [('file', 'tmpl%d.in' % c), ('target', 'hdr%d' % h)], [PROG, STR, STR])
         srcs_gen.append(c)
     mb.append("g = generator(gen, output : '@BASENAME@.c', arguments : ['@OUTPUT@', '@INPUT@'])")
+    gens = {'g': {'exe': PROG, 'depends': [], 'outfmt': '%s.c'},
+            'g2': {'exe': PROG, 'depends': ['table'], 'outfmt': '%s_g2.c'},
+            'tg': {'exe': ('target', 'tool'), 'depends': [], 'outfmt': '%s_t.c'}}
+
+    def process(gname, rel):
+        return ('gen', dict(gens[gname], items=[rel]))
+
+    def build(var, kind, name, srcs, lw=(), lwh=(), deps=(), subdir=''):
+        spec.append(('build', var, {'subdir': subdir, 'kind': kind, 'name': name, 'srcs': list(srcs), 'lw': list(lw), 'lwh': list(lwh),
+                                    'deps': list(deps)}))
     # a generator that needs a generated data file (depends:), optionally with a depfile, and a
     # custom target with a depfile
     g2 = rng.random() < 0.6
     if g2:
         mb.append("table = custom_target('table', output : 'table.dat', command : [gen, '@OUTPUT@'])")
+        custom('table', ['table.dat'], [], [PROG, STR])
         df = ", depfile : '@BASENAME@.d'" if rng.random() < 0.6 else ''
         dfa = ", '--depfile', '@DEPFILE@'" if df else ''
         mb.append("g2 = generator(gen, output : '@BASENAME@_g2.c'%s, depends : table, arguments : ['@OUTPUT@', '@INPUT@', '@BUILD_ROOT@/table.dat'%s])" % (df, dfa))
         if rng.random() < 0.5:
             files['ct.in'] = 'ct\n'
             mb.append("ctd = custom_target('ctd', input : 'ct.in', output : 'ctd.c', depfile : 'ctd.d', depends : table, command : [gen, '@OUTPUT@', '@INPUT@', '@OUTDIR@/table.dat', '--depfile', '@DEPFILE@'])")
+            custom('ctd', ['ctd.c'], [('file', 'ct.in')], [PROG, STR, STR, STR, STR, STR], [('target', 'table')])
             ctd = True
         else:
             ctd = False
@@ -109,8 +150,12 @@ def gen_project(rng, idx):
         how = rng.choice(['source', 'dep'])
         if how == 'source':
             mb.append("lib%d = %s('l%d', 'lib%d.c', hdr%d)" % (l, kind, l, l, h))
+            spec.append(('build', 'lib%d' % l, {'subdir': '', 'kind': kind, 'name': 'l%d' % l, 'srcs': [('file', 'lib%d.c' % l), ('custom', 'hdr%d' % h)],
+                                               'lw': [], 'lwh': [], 'deps': []}))
         else:
             mb.append("lib%d = %s('l%d', 'lib%d.c', dependencies : declare_dependency(sources : hdr%d))" % (l, kind, l, l, h))
+            spec.append(('build', 'lib%d' % l, {'subdir': '', 'kind': kind, 'name': 'l%d' % l, 'srcs': [('file', 'lib%d.c' % l)],
+                                               'lw': [], 'lwh': [], 'deps': [dep_of('hdr%d' % h)]}))
         libs.append((l, kind))
     # a subdir with an executable
     use_subdir = rng.random() < 0.5
@@ -120,6 +165,7 @@ def gen_project(rng, idx):
         decls, calls = [], []
         src_args = ["'main%d.c'" % e]
         link = []
+        ssrcs, sdeps = [], []
         for (l, kind) in libs:
             if rng.random() < 0.6:
                 decls.append('int lib%d(void);' % l); calls.append('lib%d()' % l)
@@ -127,15 +173,21 @@ def gen_project(rng, idx):
         for c in srcs_gen:
             if rng.random() < 0.5:
                 src_args.append('gsrc%d' % c); decls.append('int f_gsrc%d(void);' % c); calls.append('f_gsrc%d()' % c)
+                ssrcs.append(('custom', 'gsrc%d' % c))
         in_sub = use_subdir and e == ne - 1
+        sd = 'sub/' if in_sub else ''
+        ssrcs.insert(0, ('file', sd + 'main%d.c' % e))
         if rng.random() < 0.5:
             files[('sub/' if in_sub else '') + 'x%d.in' % e] = 'x %d\n' % e
             src_args.append("g.process('x%d.in')" % e); decls.append('int f_x%d(void);' % e); calls.append('f_x%d()' % e)
+            ssrcs.append(process('g', sd + 'x%d.in' % e))
         if g2 and rng.random() < 0.6:
             files[('sub/' if in_sub else '') + 'y%d.in' % e] = 'y %d\n' % e
             src_args.append("g2.process('y%d.in')" % e); decls.append('int f_y%d_g2(void);' % e); calls.append('f_y%d_g2()' % e)
+            ssrcs.append(process('g2', sd + 'y%d.in' % e))
         if ctd and rng.random() < 0.5:
             src_args.append('ctd'); decls.append('int f_ctd(void);'); calls.append('f_ctd()'); ctd = False
+            ssrcs.append(('custom', 'ctd'))
         include_h = rng.random() < 0.7
         body = ('#include "gen%d%s"\n' % (h, suf[h]) if include_h else '') + '\n'.join(decls) + '\nint main(void) { return 0%s%s; }\n' % (
             ''.join(' + ' + c for c in calls), (' + VAL_gen%d' % h) if include_h else '')
@@ -149,8 +201,12 @@ def gen_project(rng, idx):
         if include_h:
             if rng.random() < 0.5:
                 src_args.append('hdr%d' % h)
+                ssrcs.append(('custom', 'hdr%d' % h))
             else:
                 kw += ', dependencies : declare_dependency(sources : hdr%d)' % h
+                sdeps.append(dep_of('hdr%d' % h))
+        spec.append(('build', 'exe%d' % e, {'subdir': 'sub' if in_sub else '', 'kind': 'executable', 'name': 'e%d' % e, 'srcs': ssrcs,
+                                           'lw': ['lib%d' % l for l in lw], 'lwh': ['lib%d' % l for l in lwh], 'deps': sdeps}))
         if use_subdir and e == ne - 1:
             files['sub/main%d.c' % e] = body
             files['sub/meson.build'] = "exe%d = executable('e%d', %s%s)\n" % (e, e, ', '.join(src_args), kw)
@@ -165,13 +221,64 @@ def gen_project(rng, idx):
         mb.append("tool = executable('tool', 'tool.c', native : true)")
         mb.append("tout = custom_target('tout', output : 'tooled.c', command : [tool, '@OUTPUT@'])")
         mb.append("executable('usetool', 'usetool.c', tout)")
+        spec.append(('build', 'tool', {'subdir': '', 'kind': 'executable', 'name': 'tool', 'srcs': [('file', 'tool.c')], 'lw': [], 'lwh': [], 'deps': []}))
+        custom('tout', ['tooled.c'], [], [('target', 'tool'), STR])
+        spec.append(('build', 'usetool', {'subdir': '', 'kind': 'executable', 'name': 'usetool', 'srcs': [('file', 'usetool.c'), ('custom', 'tout')],
+                                          'lw': [], 'lwh': [], 'deps': []}))
         if rng.random() < 0.5:
             files['z.in'] = 'z\n'
             files['usegen.c'] = 'int tooled(void); int main(void) { return tooled() - 7; }\n'
             mb.append("tg = generator(tool, output : '@BASENAME@_t.c', arguments : ['@OUTPUT@'])")
             mb.append("executable('usegen', 'usegen.c', tg.process('z.in'))")
+            spec.append(('build', 'usegen', {'subdir': '', 'kind': 'executable', 'name': 'usegen', 'srcs': [('file', 'usegen.c'), process('tg', 'z.in')],
+                                             'lw': [], 'lwh': [], 'deps': []}))
+    # a second group: a custom target with a source and a header output, a generator that makes
+    # headers, libraries that link libraries, nested declare_dependency with link_with, a built tool
+    # that needs a shared library, a custom target whose input is a built executable
+    if rng.random() < 0.7:
+        gens['gh'] = {'exe': PROG, 'depends': [], 'outfmt': '%s_p.h'}
+        mb.append("xgh = custom_target('xgh', output : ['xg.c', 'xg.h'], command : [gen, '@OUTPUT0@', '--also', '@OUTPUT1@'])")
+        custom('xgh', ['xg.c', 'xg.h'], [], [PROG, STR, STR, STR])
+        mb.append("gh = generator(gen, output : '@BASENAME@_p.h', arguments : ['@OUTPUT@', '@INPUT@'])")
+        files['xa.in'] = 'xa\n'
+        files['xa.c'] = '#include "xa_p.h"\nint xa(void) { return VAL_xa_p; }\n'
+        ka = rng.choice(['static_library', 'static_library', 'shared_library'])
+        mb.append("xa = %s('xa', 'xa.c', gh.process('xa.in'))" % ka)
+        build('xa', ka, 'xa', [('file', 'xa.c'), process('gh', 'xa.in')])
+        files['xb.c'] = 'int xa(void);\nint xb(void) { return xa(); }\n'
+        kb = rng.choice(['static_library', 'shared_library'])
+        mb.append("xb = %s('xb', 'xb.c', link_with : xa)" % kb)
+        build('xb', kb, 'xb', [('file', 'xb.c')], lw=['xa'])
+        top = 'xb'
+        if rng.random() < 0.5:
+            files['xc.c'] = 'int xb(void);\nint xc(void) { return xb(); }\n'
+            kc = rng.choice(['static_library', 'shared_library'])
+            mb.append("xc = %s('xc', 'xc.c', link_with : xb)" % kc)
+            build('xc', kc, 'xc', [('file', 'xc.c')], lw=['xb'])
+            top = 'xc'
+        inner = {'srcs': [('custom', 'xgh')], 'lw': [top], 'lwh': [], 'sub': []}
+        nested = rng.random() < 0.6
+        mb.append("xdep = declare_dependency(sources : xgh, link_with : %s)" % top)
+        if nested:
+            mb.append("xdep2 = declare_dependency(dependencies : xdep)")
+        files['xe.c'] = '#include "xg.h"\nint f_xg(void);\nint %s(void);\nint main(void) { return f_xg() + %s() + ALSO_xg; }\n' % (top, top)
+        mb.append("xe = executable('xe', 'xe.c', dependencies : %s)" % ('xdep2' if nested else 'xdep'))
+        build('xe', 'executable', 'xe', [('file', 'xe.c')], deps=[{'srcs': [], 'lw': [], 'lwh': [], 'sub': [inner]} if nested else inner])
+        if rng.random() < 0.6:
+            files['xs.c'] = 'int xs(void) { return 3; }\n'
+            files['xtool.c'] = ('#include <stdio.h>\nint xs(void);\nint main(int argc, char **argv) { FILE *f = fopen(argv[1], "w"); '
+                                'fprintf(f, "int xt(void) { return %d; }\\n", xs()); fclose(f); return 0; }\n')
+            mb.append("xs = shared_library('xs', 'xs.c')")
+            build('xs', 'shared_library', 'xs', [('file', 'xs.c')])
+            mb.append("xtool = executable('xtool', 'xtool.c', link_with : xs)")
+            build('xtool', 'executable', 'xtool', [('file', 'xtool.c')], lw=['xs'])
+            mb.append("xt = custom_target('xt', output : 'xt.c', command : [xtool, '@OUTPUT@'], build_by_default : true)")
+            custom('xt', ['xt.c'], [], [('target', 'xtool'), STR])
+        if rng.random() < 0.6:
+            mb.append("xi = custom_target('xi', input : xe, output : 'xi.dat', command : [gen, '@OUTPUT@', '@INPUT@'], build_by_default : true)")
+            custom('xi', ['xi.dat'], [('target', 'xe')], [PROG, STR, STR])
     files['meson.build'] = '\n'.join(mb) + '\n'
-    return files
+    return files, spec
 
 
 def digest(path):
@@ -224,7 +331,7 @@ class Project:
         self.root = root
         self.src = os.path.join(root, 'src')
         self.b = os.path.join(root, 'b')
-        self.files = gen_project(rng, idx)
+        self.files, self.spec = gen_project(rng, idx)
         for rel, content in self.files.items():
             p = os.path.join(self.src, rel)
             os.makedirs(os.path.dirname(p), exist_ok=True)
@@ -256,7 +363,16 @@ class Project:
         argv = ['/bin/sh', '-c', cmd]
         if trace:
             argv = ['strace', '-f', '-qq', '-o', trace, '-e', 'trace=openat,open,creat,execve,rename,renameat,renameat2'] + argv
-        r = subprocess.run(argv, cwd=self.b, capture_output=True, text=True, timeout=300, env=impl_env())
+        for attempt in range(40):
+            r = subprocess.run(argv, cwd=self.b, capture_output=True, text=True, timeout=300, env=impl_env())
+            # ETXTBSY: a built tool that this process has just copied into place can still be open for
+            # writing in a child forked by another worker thread (until that child execs); the command
+            # did not start, so trying again is safe
+            if r.returncode != 0 and 'Text file busy' in r.stderr:
+                import time
+                time.sleep(0.05)
+                continue
+            break
         return r.returncode, (r.stdout + r.stderr)[-800:]
 
     def outputs(self, b):
@@ -313,7 +429,7 @@ def check_project(args):
     ctx_seed, idx, root, thorough = args
     import random
     rng = random.Random(ctx_seed * 100003 + idx)
-    res = {'idx': idx, 'ok': False, 'findings': [], 'stats': {}}
+    res = {'idx': idx, 'ok': False, 'findings': [], 'stats': {}, 'root': root}
     proj = Project(None, rng, idx, root)
     res['files'] = proj.files
     if not proj.setup():
@@ -323,6 +439,13 @@ def check_project(args):
     steps = proj.steps
     res['stats']['steps'] = len(steps)
     memo = {}
+    # ---- the project as IR for the model of meson's edge logic (coq/Graph/Gen.v), and the real
+    # statements it is compared with (before anything is executed)
+    R = c05_gen.Resolver(proj.src, proj.b)
+    res['gen_case'] = ['gen', [c05_gen.encode(proj.spec, R)]]
+    res['gen_names'] = dict(R.name)
+    res['real_stmts'] = c05_gen.real_statements(m, proj.b)
+    res['observed_reads'] = {}
     # ---- reference execution under strace (declaration order is topological for meson's output?
     # do not assume: use a topological order by declaration index)
     orders, rd = topo_orders(rng, proj)
@@ -345,6 +468,7 @@ def check_project(args):
         reads, writes = parse_strace(tr, proj.b)
         os.remove(tr)
         observed[i] = (reads, writes)
+        res['observed_reads'][os.path.normpath(os.path.join(proj.b, b.all_outs()[0]))] = set(reads)
         ref_out.update(proj.outputs(b))
     shutil.copytree(proj.b, os.path.join(root, 'ref'), symlinks=True)
     # ---- encode the observed graph for the verified checker
@@ -490,14 +614,66 @@ def cross_validate_reader(ctx, results):
     ctx.extra['reader_cross_validation'] = {'statements_compared': nst, 'commands_compared': ncmd}
 
 
+def compare_with_model(ctx, results):
+    """Per project: the model's statements (entry `gen` of the extracted Graph/SchedEntry.run on the
+    project IR) against the statements of the real build.ninja — outputs, explicit, implicit and
+    order-only inputs, and declared ancestors, as sets of normalised paths — and the observed
+    reads of generated files against the model's ASSUMED reads."""
+    todo = [r for r in results if 'gen_case' in r]
+    cases = [tuple(r['gen_case']) for r in todo]
+    if not cases:
+        return [], []
+    outs = ctx.run_model(cases)
+    nstmt = nreads = 0
+    for res, ans in zip(todo, outs):
+        class N:
+            name = res['gen_names']
+        if ans.startswith('ERR') or ans == '?':
+            raise HarnessError('the model rejects the IR of project %d: %s' % (res['idx'], ans))
+        flags, model = c05_gen.parse_model(ans, N)
+        if flags[0] != 'T' or flags[1] != 'T':
+            raise HarnessError('project %d: the IR is not valid / not in the modelled fragment (valid=%s fragment=%s): harness path '
+                               'resolution or generator outside the fragment' % (res['idx'], flags[0], flags[1]))
+        if flags[2] != 'T':
+            raise HarnessError('project %d: the extracted checker rejects the model\'s own graph although the project is valid '
+                               '(contradicts graph_of_well_formed)' % res['idx'])
+        produced = set()
+        for key in res['real_stmts']:
+            produced |= set(key)
+        n, bad = c05_gen.compare(res['real_stmts'], model, res['observed_reads'], produced)
+        nstmt += n
+        nreads += len(res['observed_reads'])
+        ctx.cov['evaluations'] += n
+        for b in bad:
+            b['project'] = res['idx']
+            b['seed'] = ctx.seed
+            b['meson.build'] = res['files'].get('meson.build', '')
+            ctx.disagreements.append(json.loads(json.dumps(b, default=str).replace(res.get('root', '\0'), '')))
+    ctx.extra['model_correspondence'] = {
+        'projects': len(todo), 'statements_compared': nstmt, 'steps_with_observed_reads_checked': nreads,
+        'compared': 'per statement: outputs, explicit / implicit / order-only inputs and declared ancestors as sets of normalised paths',
+        'ignored_statements': c05_gen.ignored.__doc__}
+    return cases, outs
+
+
 def replay(ctx):
     rec = json.load(open(ctx.replay))
-    r = rec['replay']
-    root = os.path.join(ctx.mkscratch(), 'replay')
-    os.makedirs(root)
-    import random
-    res = check_project((r['seed'], r['idx'], root, True))
-    print(json.dumps({'findings': res['findings'], 'stats': res['stats']}, indent=1))
+    if 'replay' in rec:
+        todo = [(rec['replay']['seed'], rec['replay']['idx'])]
+    else:   # a correspondence replay: the projects on which model and build.ninja disagreed
+        todo = sorted({(d['seed'], d['project']) for d in rec.get('correspondence_disagreements', []) if 'seed' in d})[:3]
+    ctx.build('Props/C05.v', 'Graph/SchedExtract.v', 'C05')
+    for k, (seed, idx) in enumerate(todo):
+        root = os.path.join(ctx.mkscratch(), 'replay%d' % k)
+        os.makedirs(root)
+        res = check_project((seed, idx, root, True))
+        ctx.seed = seed
+        ctx.disagreements = []
+        compare_with_model(ctx, [res])
+        for d in ctx.disagreements:
+            d.pop('meson.build', None)
+        print(json.dumps({'seed': seed, 'project': idx, 'findings': res['findings'], 'stats': res['stats'],
+                          'model_vs_build_ninja': ctx.disagreements}, indent=1))
     ctx.cleanup()
     return 0
 
@@ -536,7 +712,7 @@ def run(ctx):
         ctx.count(('proj', res['idx']), nontrivial=res['stats'].get('steps', 0) > 3)
     if len(ctx.extra.get('setup_failed', [])) > n // 3:
         raise HarnessError('too many generated projects fail to configure: %s' % ctx.extra['setup_failed'][:2])
-    if built and cases:
+    if built:
         outs = ctx.run_model(cases)
         for (idx, what), (fn, args), o in zip(owners, cases, outs):
             ctx.cov['evaluations'] += 1
@@ -557,7 +733,9 @@ def run(ctx):
             else:
                 if o != 'T':
                     raise HarnessError('harness produced a non-topological adversarial order for project %d (%s)' % (idx, what))
-        ctx.kernel_crosscheck('Graph.SchedEntry', [c for c in cases if len(c[1][0]) < 3000], [o for c, o in zip(cases, outs) if len(c[1][0]) < 3000], limit=40)
+        gcases, gouts = compare_with_model(ctx, results)
+        kc = [(c, o) for c, o in zip(cases + gcases, outs + gouts) if len(c[1][0]) < 3000]
+        ctx.kernel_crosscheck('Graph.SchedEntry', [c for c, o in kc], [o for c, o in kc], limit=60)
     cross_validate_reader(ctx, results)
     ctx.cov['traces_validated_against_impl'] = len(cases)
     ctx.extra['projects'] = len(results)
@@ -568,15 +746,26 @@ def run(ctx):
     return ctx.finish(
         level='proof',
         trusted=['Coq 8.16.1 kernel (coqc, vm_compute)', 'extraction (ExtrOcamlBasic only) + OCaml + shared driver, cross-checked in-kernel',
+                 'the READ ASSUMPTION of coq/Graph/Gen.v (which generated files a custom command, generator rule, compilation, link, archiver and '
+                 'symbol extractor may open) — validated per run: the strace-observed reads of generated files of every executed step are within it',
+                 'the transcription of meson\'s edge logic in coq/Graph/Gen.v (file:line comments) — validated per run: every non-bookkeeping '
+                 'statement of every generated project\'s build.ninja has the model\'s explicit, implicit and order-only inputs and declared ancestors; '
+                 'harness/c05_gen.py resolves the file names the IR carries (naming is not modelled)',
                  'harness: project generator, harness/ninja_py.py (Ninja manifest reader/evaluator written from the manual), reference executor, '
                  'strace-based observation of per-step reads/writes (open/openat/creat/execve/rename), path encoding',
                  'step model of the theorem: a step\'s outputs are a function of the contents of the files it opens (validated per step by hermetic '
                  'replay and by three adversarial schedules with digest comparison); compilers assumed deterministic'],
         assumptions=['Print Assumptions: C05 theorems closed under the global context',
+                     'C05_generated_graph_*: for every project of the IR of Graph/Gen.v whose produced files have distinct names (valid_project), under '
+                     'the read assumption; projects outside the modelled fragment (other languages, install, objects:, extract_objects, link_whole '
+                     'into static libraries, custom-target indexes, generated lists as custom-target inputs, run targets) are only explored',
                      'the universal claim over projects is explored by the generator; the quantifier over schedules is discharged by the theorem for '
                      'every project whose observed graph passes the verified checker'],
         rule='generated C projects (generated headers, generators, custom-target chains, link_with/link_whole, declare_dependency(sources:), '
-             'depends/depend_files, configure_file, subdirs, built tools) are configured with the Ninja backend; every build statement needed for '
+             'depends/depend_files, configure_file, subdirs, built tools; multi-output custom targets, generator-made headers reaching the '
+             'targets that link a library, library chains, nested declare_dependency with link_with, tools that need a shared library, a built '
+             'executable as custom-target input) are configured with the Ninja backend; the project IR is given to the extracted model of meson\'s '
+             'edge logic and its statements are compared with build.ninja; every build statement needed for '
              '`all` is executed under strace in a reference order; the observed graph is judged by the extracted well_formed checker; each step is '
              'replayed hermetically and three adversarial topological orders are executed with digest comparison; a project is non-trivial when it '
              'has more than 3 build steps')
